@@ -1,10 +1,28 @@
 import TxdbusModel.Proofs.Bus.LookupRoute
 /-!
-# One bus: C13's name table driving C14's router  (extension 2026-09-30)
+# One bus: C13's name table driving C14's router  (extension 2026-09-30, revised after review 3)
 
-A C13 history with lookups is turned into a history of C14's model (`gen`): a connect + Hello per C13
-`connect`; a bus call carrying the effects C13's model computes per RequestName / ReleaseName; a
-`disconnect` with C13's effects; a message per `send`.  `Joint` relates the two states.
+`Linked enc s hs es`: the history `es` of C14's model (`Txdbus.BusRoute`) is a run of the SAME bus as the
+history `hs` of C13's model (`Txdbus.Bus`), started in C13's state `s`:
+
+* a C13 `connect` is, in C14's model, `connect` followed at once by the connection's Hello (ANY message that
+  is a call of `Hello` on the bus, with any classification `op`) - so C13's connection `k` is C14's `k - 1`;
+* a RequestName / ReleaseName of C13 is ANY method call addressed to the bus (member other than Hello) by
+  that connection, classified `.exec effs`, where the OWNER PART of `effs` is what C13's model computes
+  (`ownerEffects`); any signals may be interleaved in `effs`;
+* a C13 `disconnect` is `disconnect (k - 1) effs` with the same condition on `effs`;
+* C13's queries, questions, messages (`getOwner`, `listQueued`, `other`, `ask`, `send`, `sendBus`) need no
+  event of their own;
+* between any two of these, ANY message event of C14's model by ANY connection index may occur, with any
+  content and any classification that carries no owner effect (`OwnerFree`): AddMatch (so connections may
+  hold match rules), broadcasts, addressed messages, Ping, a second Hello, garbage from dead connections.
+
+What `Linked` does NOT reach (hence the `_partial` in the theorems of Properties/C13.lean, section 11): C14
+histories in which a connection authenticates (`connect`) and stays silent, or speaks first with something
+other than Hello while other connections are being named - there C13's number `k` and C14's index are no
+longer `k - 1` apart (a relational map through `nameOf` is needed).
+
+`Joint enc s r` is the invariant of linked runs.
 -/
 namespace Txdbus.NamesRoute
 
@@ -12,6 +30,20 @@ open Txdbus
 open Txdbus.BusRoute (Effect dget dset ddel applyEffect applyEffects Cfg ConnId Msg Event BusOp uniqueNameOf busName)
 
 variable {ρ : Type}
+
+/-- The first message of a well-behaved client. -/
+def IsHello (m : Msg) : Prop :=
+  m.mtype = .call ∧ m.dest = some busName ∧ m.member = some BusRoute.helloMember
+
+/-- A method call addressed to the bus that is not Hello (RequestName, ReleaseName, ...). -/
+def IsNameCall (m : Msg) : Prop :=
+  m.mtype = .call ∧ m.dest = some busName ∧ m.member ≠ some BusRoute.helloMember
+
+/-- A classification that does not touch the name table. -/
+def OwnerFree (op : BusOp ρ) : Prop := ∀ effs, op = .exec effs → effs.filterMap ownerPart = []
+
+/-- Two effect lists with the same owner parts (signals are free). -/
+def SameOwners (a b : List Effect) : Prop := a.filterMap ownerPart = b.filterMap ownerPart
 
 /-- A method call addressed to the bus (every field the model does not look at: default). -/
 def busCallMsg (member : BusRoute.Name) : Msg :=
@@ -21,105 +53,78 @@ def busCallMsg (member : BusRoute.Name) : Msg :=
 def addressedMsg (d : BusRoute.Name) : Msg :=
   { (default : Msg) with mtype := .call, dest := some d }
 
-/-! ### what C14's model does with the generated events -/
+/-- Any member other than Hello. -/
+def nameMember : BusRoute.Name := "RequestName".toList
+
+theorem busCallMsg_hello : IsHello (busCallMsg BusRoute.helloMember) := ⟨rfl, rfl, rfl⟩
+
+theorem busCallMsg_nameCall : IsNameCall (busCallMsg nameMember) := ⟨rfl, rfl, by decide⟩
+
+/-! ### what C14's model does with these events -/
+
+theorem ownersAfter_ownerFree (o : List (BusRoute.Name × ConnId)) (effs : List Effect)
+    (h : effs.filterMap ownerPart = []) : ownersAfter o effs = o := by
+  induction effs generalizing o with
+  | nil => rfl
+  | cons e es ih =>
+    simp only [List.filterMap_cons] at h
+    simp only [ownersAfter]
+    cases he : ownerPart e with
+    | none => rw [he] at h; exact ih o h
+    | some p => rw [he] at h; cases h
 
 theorem ensureNamed_named (r : BusRoute.State ρ) (i : ConnId) (c : BusRoute.Conn) (nm : BusRoute.Name)
     (hname : c.uniqueName = some nm) : BusRoute.ensureNamed r i c = (r, nm, none) := by
   unfold BusRoute.ensureNamed
   rw [hname]
 
-/-- A call to the bus (not the first Hello) by a named live connection that carries `effs`: the state
+/-- A call to the bus other than Hello by a named live connection, classified `.exec effs`: the state
 afterwards is the one `applyEffects` leaves. -/
-theorem step_busCall (cfg : Cfg ρ) (r : BusRoute.State ρ) (i : ConnId) (c : BusRoute.Conn)
-    (nm member : BusRoute.Name) (effs : List Effect)
+theorem step_nameCall (cfg : Cfg ρ) (r : BusRoute.State ρ) (i : ConnId) (c : BusRoute.Conn)
+    (nm : BusRoute.Name) (m : Msg) (effs : List Effect)
     (hc : r.conns[i]? = some c) (hlive : c.isConnected = true) (hname : c.uniqueName = some nm)
-    (hcalled : c.calledHello = true) :
-    (BusRoute.step cfg r (.msg i (busCallMsg member) (.exec effs))).1 = (applyEffects cfg r effs).1 := by
+    (hm : IsNameCall m) :
+    (BusRoute.step cfg r (.msg i m (.exec effs))).1 = (applyEffects cfg r effs).1 := by
   rw [BusRoute.step_msg_live cfg r i _ _ c hc hlive, ensureNamed_named r i c nm hname]
-  simp [BusRoute.stepNamed, hcalled, BusRoute.messageReceived, busCallMsg, BusRoute.busCall]
+  simp [BusRoute.stepNamed, BusRoute.messageReceived, BusRoute.busCall, hm.1, hm.2.1, hm.2.2]
 
-/-- A message for `d` (set, non-empty, not the bus) by a named live connection: nothing changes, the
-deliveries are those of `busSend`. -/
-theorem step_send {cfg : Cfg ρ} (hr : cfg.Repaired) (r : BusRoute.State ρ) (i : ConnId) (c : BusRoute.Conn)
-    (nm d : BusRoute.Name) (hc : r.conns[i]? = some c) (hlive : c.isConnected = true)
-    (hname : c.uniqueName = some nm) (hd : d ≠ []) (hb : d ≠ busName) :
-    (BusRoute.step cfg r (.msg i (addressedMsg d) (.exec []))).1 = r ∧
-    (BusRoute.step cfg r (.msg i (addressedMsg d) (.exec []))).2.deliveries =
-      BusRoute.busSend r d (.fwd i (BusRoute.remarshal (addressedMsg d) nm)) := by
-  rw [BusRoute.step_msg_live cfg r i _ _ c hc hlive, ensureNamed_named r i c nm hname]
-  have ha : BusRoute.Addressed (addressedMsg d) d := ⟨rfl, hd, hb⟩
-  obtain ⟨a, b, _⟩ := BusRoute.stepNamed_unicast hr r i nm none c.calledHello (addressedMsg d) (.exec []) d ha
-  exact ⟨a, b⟩
-
-/-- The loss of a live connection whose remembered keys are all there. -/
-theorem step_disconnect_state (cfg : Cfg ρ) (r : BusRoute.State ρ) (i : ConnId) (effs : List Effect)
-    (c : BusRoute.Conn) (hc : r.conns[i]? = some c) (hlive : c.isConnected = true)
-    (hok : BusRoute.disconnectOk r c = true) :
-    (BusRoute.step cfg r (.disconnect i effs)).1 =
-      BusRoute.dropClient
-        (applyEffects cfg { r with conns := r.conns.set i { c with isConnected := false },
-                                   rules := r.rules.filter (fun x => !(c.matchRules.contains x.id)) } effs).1
-        c.uniqueName := by
-  simp [BusRoute.step, BusRoute.stepDisconnect, hc, hlive, hok]
-
-/-- A new connection that says Hello at once. -/
-theorem final_connect_hello (cfg : Cfg ρ) (r : BusRoute.State ρ) :
-    BusRoute.final cfg r [.connect, .msg r.conns.length (busCallMsg BusRoute.helloMember) (.exec [])] =
+/-- A new connection whose first message is Hello. -/
+theorem final_connect_hello (cfg : Cfg ρ) (r : BusRoute.State ρ) (m : Msg) (op : BusOp ρ) (hm : IsHello m) :
+    BusRoute.final cfg r [.connect, .msg r.conns.length m op] =
       { r with conns := r.conns ++ [{ uniqueName := some (uniqueNameOf r.nextId), calledHello := true,
                                       isConnected := true, matchRules := [] }],
                nextId := r.nextId + 1,
                clients := dset (uniqueNameOf r.nextId) r.conns.length r.clients } := by
   simp [BusRoute.final, BusRoute.step, BusRoute.stepMsg, BusRoute.Conn.fresh, BusRoute.ensureNamed,
-    BusRoute.stepNamed, busCallMsg, BusRoute.modifyConn]
+    BusRoute.stepNamed, BusRoute.modifyConn, hm.1, hm.2.1, hm.2.2]
 
-/-! ### the generated history -/
-
-/-- When every connection says Hello at once, C13's connection `k` (of `:1.k`) is C14's connection `k - 1`. -/
-def phi (k : Bus.Conn) : ConnId := k - 1
-
-/-- Any member other than Hello (the routing model does not look at it). -/
-def nameMember : BusRoute.Name := "RequestName".toList
-
-/-- The string of a destination; `fgn` is the colon name that was never handed out. -/
-def destStr (enc : Bus.Name → BusRoute.Name) (fgn : BusRoute.Name) : Bus.Dest → BusRoute.Name
-  | .unique k => uniqueNameOf k
-  | .foreign => fgn
-  | .wellKnown n => enc n
-
-/-- A bus call without effect on the names, if the caller is connected. -/
-def genQuery (s : Bus.State) (c : Bus.Conn) : List (Event ρ) :=
-  if s.connected c = true then [.msg (phi c) (busCallMsg nameMember) (.exec [])] else []
-
-/-- The events of C14's model for one step `s -> s'` of C13's model. -/
-def genStep (enc : Bus.Name → BusRoute.Name) (fgn : BusRoute.Name) (s s' : Bus.State) : Bus.HStep → List (Event ρ)
-  | .op .connect => [.connect, .msg (s.nextId - 1) (busCallMsg BusRoute.helloMember) (.exec [])]
-  | .op (.disconnect c) =>
-    [.disconnect (phi c) (ownerEffects enc phi (Bus.changedNames s (.disconnect c)) s s')]
-  | .op (.request c n w) =>
-    [.msg (phi c) (busCallMsg nameMember) (.exec (ownerEffects enc phi (Bus.changedNames s (.request c n w)) s s'))]
-  | .op (.release c n) =>
-    [.msg (phi c) (busCallMsg nameMember) (.exec (ownerEffects enc phi (Bus.changedNames s (.release c n)) s s'))]
-  | .op (.getOwner c _) => genQuery s c
-  | .op (.listQueued c _) => genQuery s c
-  | .op (.other c) => genQuery s c
-  | .ask c _ => genQuery s c
-  | .send c d =>
-    if s.connected c = true then [.msg (phi c) (addressedMsg (destStr enc fgn d)) (.exec [])] else []
-
-/-- The history of C14's model for a history with lookups of C13's model. -/
-def gen (enc : Bus.Name → BusRoute.Name) (fgn : BusRoute.Name) (s : Bus.State) : List Bus.HStep → List (Event ρ)
-  | [] => []
-  | h :: hs =>
-    match Bus.stepL s h with
-    | .error _ => []
-    | .ok (s', _) => genStep enc fgn s s' h ++ gen enc fgn s' hs
+/-- `owners` after the rest of `rawDBusMessageReceived`: untouched, or what the event's own effects make of
+it (the frame lemma C14's files do not state). -/
+theorem stepNamed_owners (cfg : Cfg ρ) (s1 : BusRoute.State ρ) (i : ConnId) (nm : BusRoute.Name)
+    (named : Option (ConnId × BusRoute.Name)) (called : Bool) (m : Msg) (op : BusOp ρ) :
+    (BusRoute.stepNamed cfg s1 i nm named called m op).1.owners = s1.owners ∨
+    ∃ effs, op = .exec effs ∧
+      (BusRoute.stepNamed cfg s1 i nm named called m op).1.owners = ownersAfter s1.owners effs := by
+  unfold BusRoute.stepNamed
+  split
+  · exact Or.inl (BusRoute.modifyConn_other s1 i _).2.1
+  · simp only [BusRoute.messageReceived]
+    split
+    · cases op with
+      | always => exact Or.inl rfl
+      | addMatch x =>
+        left
+        simp only [BusRoute.busCall, BusRoute.addMatch]
+        split
+        · exact (BusRoute.modifyConn_other _ i _).2.1
+        · rfl
+      | exec effs => exact Or.inr ⟨effs, rfl, applyEffects_owners cfg s1 effs⟩
+    · exact Or.inl rfl
 
 /-! ### the joint invariant -/
 
-/-- C14's record of the connection that C13 calls `i + 1`. -/
-def connOf (s : Bus.State) (i : Nat) : BusRoute.Conn :=
-  { uniqueName := some (uniqueNameOf (i + 1)), calledHello := true, isConnected := s.connected (i + 1),
-    matchRules := [] }
+/-- When every connection says Hello at once, C13's connection `k` (of `:1.k`) is C14's connection `k - 1`. -/
+def phi (k : Bus.Conn) : ConnId := k - 1
 
 structure Joint (enc : Bus.Name → BusRoute.Name) (s : Bus.State) (r : BusRoute.State ρ) : Prop where
   invN : Bus.Inv s
@@ -128,114 +133,144 @@ structure Joint (enc : Bus.Name → BusRoute.Name) (s : Bus.State) (r : BusRoute
   pos : ∀ c, s.connected c = true → 1 ≤ c
   next : r.nextId = s.nextId
   len : r.conns.length + 1 = s.nextId
-  /-- connection `i` of C14's model is C13's `i + 1`: named `:1.(i+1)`, has said Hello, live iff connected -/
-  conn : ∀ i, i < r.conns.length → r.conns[i]? = some (connOf s i)
-  rules : r.rules = []
+  /-- connection `i` of C14's model is C13's `i + 1`: it carries the unique name `:1.(i+1)` ... -/
+  name : ∀ i, i < r.conns.length → BusRoute.nameOf r i = some (uniqueNameOf (i + 1))
+  /-- ... and is live iff C13 has it connected (nothing is said about its rules or its Hello flag) -/
+  live : ∀ i, i < r.conns.length → BusRoute.connected r i = s.connected (i + 1)
   owners : OwnersAgree enc phi s r.owners
 
 theorem Joint.init (enc : Bus.Name → BusRoute.Name) : Joint enc Bus.State.init (BusRoute.State.init : BusRoute.State ρ) := by
-  refine ⟨Bus.inv_init, BusRoute.Inv.init, ?_, rfl, rfl, ?_, rfl, fun n => rfl⟩
+  refine ⟨Bus.inv_init, BusRoute.Inv.init, ?_, rfl, rfl, ?_, ?_, fun n => rfl⟩
   · intro c hc; simp [Bus.State.connected, Bus.State.init, Bus.Dict.get?] at hc
+  · intro i hi; simp [BusRoute.State.init] at hi
   · intro i hi; simp [BusRoute.State.init] at hi
 
 section
 variable {enc : Bus.Name → BusRoute.Name} {s : Bus.State} {r : BusRoute.State ρ}
 
-/-- A connected connection of C13's model is there in C14's. -/
+/-- A connected connection of C13's model is there, named and live, in C14's. -/
 theorem Joint.conn_of (J : Joint enc s r) {c : Bus.Conn} (hc : s.connected c = true) :
-    phi c + 1 = c ∧ phi c < r.conns.length ∧ r.conns[phi c]? = some (connOf s (phi c)) ∧
-    (connOf s (phi c)).isConnected = true := by
+    phi c + 1 = c ∧ phi c < r.conns.length ∧
+    ∃ x, r.conns[phi c]? = some x ∧ x.uniqueName = some (uniqueNameOf c) ∧ x.isConnected = true := by
   have key : ∀ (c n len : Nat), 1 ≤ c → c < n → len + 1 = n → c - 1 + 1 = c ∧ c - 1 < len := by
     intros; omega
   obtain ⟨hp, hl⟩ := key c s.nextId r.conns.length (J.pos c hc) (J.invN.fresh c hc) J.len
   have hp : phi c + 1 = c := hp
   have hl : phi c < r.conns.length := hl
-  refine ⟨hp, hl, J.conn _ hl, ?_⟩
-  show s.connected (phi c + 1) = true
-  rw [hp]; exact hc
+  refine ⟨hp, hl, ?_⟩
+  cases hx : r.conns[phi c]? with
+  | none =>
+    have := List.getElem?_eq_none_iff.mp hx
+    exact absurd hl (Nat.not_lt.mpr this)
+  | some x =>
+    refine ⟨x, rfl, ?_, ?_⟩
+    · have := J.name _ hl
+      rw [BusRoute.nameOf_of_getElem r _ x hx, hp] at this
+      exact this
+    · have := J.live _ hl
+      rw [BusRoute.connected_of_getElem r _ x hx, hp, hc] at this
+      exact this
 
-/-- Changes that leave the connections alone. -/
-theorem Joint.of_frame (J : Joint enc s r) {s' : Bus.State} {r' : BusRoute.State ρ}
+/-- Changes that keep every connection's name and liveness. -/
+theorem Joint.of_keeps (J : Joint enc s r) {s' : Bus.State} {r' : BusRoute.State ρ}
     (hN : Bus.Inv s') (hR : BusRoute.Inv r')
     (hconn : ∀ d, s'.connected d = s.connected d) (hnext : s'.nextId = s.nextId)
-    (hconns : r'.conns = r.conns) (hrn : r'.nextId = r.nextId) (hrules : r'.rules = r.rules)
-    (hown : OwnersAgree enc phi s' r'.owners) : Joint enc s' r' := by
+    (hk : BusRoute.KeepsNames r r') (hown : OwnersAgree enc phi s' r'.owners) : Joint enc s' r' := by
+  obtain ⟨_, k2, k3, k4, k5⟩ := hk
   refine ⟨hN, hR, ?_, ?_, ?_, ?_, ?_, hown⟩
   · intro c hc; rw [hconn] at hc; exact J.pos c hc
-  · rw [hrn, hnext]; exact J.next
-  · rw [hconns, hnext]; exact J.len
-  · intro i hi
-    rw [hconns] at hi ⊢
-    rw [J.conn i hi]
-    simp only [connOf, hconn]
-  · rw [hrules]; exact J.rules
+  · rw [k2, hnext]; exact J.next
+  · rw [k5, hnext]; exact J.len
+  · intro i hi; rw [k5] at hi; rw [k3]; exact J.name i hi
+  · intro i hi; rw [k5] at hi; rw [k4, hconn]; exact J.live i hi
 
-/-- A bus call carrying `effs` by a connected connection of a joint state. -/
-theorem Joint.busCall_state (J : Joint enc s r) (cfg : Cfg ρ) {c : Bus.Conn} (hc : s.connected c = true)
-    (effs : List Effect) :
-    BusRoute.final cfg r [.msg (phi c) (busCallMsg nameMember) (.exec effs)] = (applyEffects cfg r effs).1 := by
-  obtain ⟨_, _, hget, hlive⟩ := J.conn_of hc
-  exact step_busCall cfg r (phi c) _ _ nameMember effs hget hlive rfl rfl
+/-- ANY message event that carries no owner effect - by any connection index, alive, dead or absent, with
+any content - keeps the joint invariant (C13's state does not move). -/
+theorem Joint.neutral (J : Joint enc s r) {cfg : Cfg ρ} (hr : cfg.Repaired) (i : ConnId) (m : Msg)
+    (op : BusOp ρ) (hop : OwnerFree op) : Joint enc s (BusRoute.step cfg r (.msg i m op)).1 := by
+  have hR' := BusRoute.step_inv hr J.invR (.msg i m op)
+  cases hc : r.conns[i]? with
+  | none =>
+    have : (BusRoute.step cfg r (.msg i m op)).1 = r := by simp [BusRoute.step, BusRoute.stepMsg, hc]
+    rw [this]; exact J
+  | some c =>
+    by_cases hconn : c.isConnected = true
+    · have hi : i < r.conns.length := (List.getElem?_eq_some_iff.mp hc).1
+      have hname : c.uniqueName = some (uniqueNameOf (i + 1)) := by
+        have := J.name i hi
+        rw [BusRoute.nameOf_of_getElem r i c hc] at this
+        exact this
+      have hst := BusRoute.step_msg_live cfg r i m op c hc hconn
+      rw [ensureNamed_named r i c _ hname] at hst
+      rw [hst] at hR' ⊢
+      -- names and liveness
+      have hk : BusRoute.KeepsNames r
+          (BusRoute.stepNamed cfg r i (uniqueNameOf (i + 1)) none c.calledHello m op).1 := by
+        rcases BusRoute.dest_trichotomy m with ⟨d, ha⟩ | hb | hn
+        · rw [(BusRoute.stepNamed_unicast hr r i _ none c.calledHello m op d ha).1]
+          exact BusRoute.KeepsNames.refl r
+        · exact (BusRoute.stepNamed_bus hr J.invR i c _ none c.calledHello m op hc hconn hname hb).2.1
+        · rw [(BusRoute.stepNamed_broadcast hr r i _ none c.calledHello m op hn).1]
+          exact BusRoute.KeepsNames.refl r
+      -- the table
+      have hown : (BusRoute.stepNamed cfg r i (uniqueNameOf (i + 1)) none c.calledHello m op).1.owners = r.owners := by
+        rcases stepNamed_owners cfg r i (uniqueNameOf (i + 1)) none c.calledHello m op with h | ⟨effs, he, h⟩
+        · exact h
+        · rw [h, ownersAfter_ownerFree _ _ (hop effs he)]
+      exact J.of_keeps J.invN hR' (fun _ => rfl) rfl hk (by rw [hown]; exact J.owners)
+    · have hconn' : c.isConnected = false := by simpa using hconn
+      have : (BusRoute.step cfg r (.msg i m op)).1 = r := by
+        simp [BusRoute.step, BusRoute.stepMsg, hc, hconn']
+      rw [this]; exact J
 
-theorem Joint.query_state (J : Joint enc s r) (cfg : Cfg ρ) (c : Bus.Conn) :
-    BusRoute.final cfg r (genQuery s c) = r := by
-  unfold genQuery
-  by_cases hc : s.connected c = true
-  · rw [if_pos hc, J.busCall_state cfg hc []]; rfl
-  · rw [if_neg hc]; rfl
+/-! ### linked histories -/
 
-theorem busName_head : busName.head? = some 'o' := by decide
+/-- The events of C14's model that a step `s -> s'` of C13's model requires (see the header). -/
+def GenFor (enc : Bus.Name → BusRoute.Name) (s s' : Bus.State) : Bus.HStep → List (Event ρ) → Prop
+  | .op .connect, evs => ∃ m op, IsHello m ∧ evs = [.connect, .msg (s.nextId - 1) m op]
+  | .op (.disconnect c), evs =>
+    ∃ effs, SameOwners effs (ownerEffects enc phi (Bus.changedNames s (.disconnect c)) s s') ∧
+      evs = [.disconnect (phi c) effs]
+  | .op (.request c n w), evs =>
+    ∃ m effs, IsNameCall m ∧ SameOwners effs (ownerEffects enc phi (Bus.changedNames s (.request c n w)) s s') ∧
+      evs = [.msg (phi c) m (.exec effs)]
+  | .op (.release c n), evs =>
+    ∃ m effs, IsNameCall m ∧ SameOwners effs (ownerEffects enc phi (Bus.changedNames s (.release c n)) s s') ∧
+      evs = [.msg (phi c) m (.exec effs)]
+  | _, evs => evs = []
 
-/-- The strings of the destinations are set, non-empty and not the bus's own name. -/
-theorem destStr_addressed (hne : ∀ a, enc a ≠ [] ∧ enc a ≠ busName) (fgn : BusRoute.Name)
-    (hf : fgn.head? = some ':') (d : Bus.Dest) : destStr enc fgn d ≠ [] ∧ destStr enc fgn d ≠ busName := by
-  cases d with
-  | unique k =>
-    refine ⟨BusRoute.uniqueNameOf_ne_nil k, fun e => ?_⟩
-    have := BusRoute.uniqueNameOf_head k
-    simp only [destStr] at e
-    rw [e, busName_head] at this
-    cases this
-  | foreign =>
-    refine ⟨fun e => ?_, fun e => ?_⟩
-    · simp only [destStr] at e; rw [e] at hf; cases hf
-    · simp only [destStr] at e; rw [e, busName_head] at hf; cases hf
-  | wellKnown n => exact hne n
+inductive Linked (enc : Bus.Name → BusRoute.Name) : Bus.State → List Bus.HStep → List (Event ρ) → Prop where
+  | nil (s : Bus.State) : Linked enc s [] []
+  /-- any owner-free message event of C14's model, by anybody -/
+  | neutral {s : Bus.State} {hs : List Bus.HStep} {es : List (Event ρ)} (i : ConnId) (m : Msg) (op : BusOp ρ)
+      (hop : OwnerFree op) : Linked enc s hs es → Linked enc s hs (.msg i m op :: es)
+  /-- a step of C13's model with the events it requires -/
+  | step {s s' : Bus.State} {h : Bus.HStep} {o : Bus.HOut} {hs : List Bus.HStep} {evs es : List (Event ρ)} :
+      Bus.stepL s h = .ok (s', o) → GenFor enc s s' h evs → Linked enc s' hs es →
+      Linked enc s (h :: hs) (evs ++ es)
 
-/-- One step of C13's model and the events generated for it keep the joint invariant. -/
+/-- One step of C13's model and the events required for it keep the joint invariant. -/
 theorem joint_stepL {cfg : Cfg ρ} (hr : cfg.Repaired) (he : NameEnc enc)
-    (hne : ∀ a, enc a ≠ [] ∧ enc a ≠ busName) (fgn : BusRoute.Name) (hf : fgn.head? = some ':')
     (J : Joint enc s r) {h : Bus.HStep} {s' : Bus.State} {o : Bus.HOut}
-    (hs : Bus.stepL s h = .ok (s', o)) :
-    Joint enc s' (BusRoute.final cfg r (genStep enc fgn s s' h)) := by
+    (hs : Bus.stepL s h = .ok (s', o)) {evs : List (Event ρ)} (hg : GenFor enc s s' h evs) :
+    Joint enc s' (BusRoute.final cfg r evs) := by
   have hN' : Bus.Inv s' := (Bus.stepL_refines J.invN hs).1
-  have hR' : BusRoute.Inv (BusRoute.final cfg r (genStep enc fgn s s' h)) := BusRoute.final_inv hr J.invR _
-  -- steps that change nothing on either side
-  have same : s' = s → BusRoute.final cfg r (genStep enc fgn s s' h) = r →
-      Joint enc s' (BusRoute.final cfg r (genStep enc fgn s s' h)) := by
-    intro e1 e2; subst e1; rw [e2]; exact J
+  have hR' : BusRoute.Inv (BusRoute.final cfg r evs) := BusRoute.final_inv hr J.invR _
+  -- steps that need no event and change nothing
+  have same : s' = s → evs = [] → Joint enc s' (BusRoute.final cfg r evs) := by
+    intro e1 e2; subst e1; subst e2; exact J
   cases h with
-  | send c d =>
-    simp only [Bus.stepL] at hs
-    cases hs
-    apply same rfl
-    simp only [genStep]
-    by_cases hc : s.connected c = true
-    · rw [if_pos hc]
-      obtain ⟨_, _, hget, hlive⟩ := J.conn_of hc
-      obtain ⟨hd, hb⟩ := destStr_addressed hne fgn hf d
-      exact (step_send hr r (phi c) _ _ _ hget hlive rfl hd hb).1
-    · rw [if_neg hc]; rfl
+  | send c d => simp only [Bus.stepL] at hs; cases hs; exact same rfl hg
+  | sendBus c => simp only [Bus.stepL] at hs; cases hs; exact same rfl hg
   | ask c d =>
     simp only [Bus.stepL, Bus.getNameOwnerOf_post J.invN c d] at hs
-    cases hs
-    exact same rfl (J.query_state cfg c)
+    cases hs; exact same rfl hg
   | op op =>
     simp only [Bus.stepL] at hs
     cases h1 : Bus.step s op with
     | error e => simp [h1] at hs
     | ok p =>
-      obtain ⟨s1, evs⟩ := p
+      obtain ⟨s1, evs1⟩ := p
       simp only [h1] at hs
       cases hs
       obtain ⟨hconn, hnext⟩ := Bus.step_connected J.invN h1
@@ -243,92 +278,97 @@ theorem joint_stepL {cfg : Cfg ρ} (hr : cfg.Repaired) (he : NameEnc enc)
       | getOwner c n =>
         have : Bus.step s (.getOwner c n) = Bus.getNameOwner s c n := rfl
         rw [this, Bus.getNameOwner_post J.invN] at h1
-        cases h1
-        exact same rfl (J.query_state cfg c)
+        cases h1; exact same rfl hg
       | listQueued c n =>
         have : Bus.step s (.listQueued c n) = Bus.listQueuedOwners s c n := rfl
         rw [this, Bus.listQueuedOwners_post] at h1
-        cases h1
-        exact same rfl (J.query_state cfg c)
+        cases h1; exact same rfl hg
       | other c =>
         have : Bus.step s (.other c) = .ok (s, []) := rfl
         rw [this] at h1
-        cases h1
-        exact same rfl (J.query_state cfg c)
+        cases h1; exact same rfl hg
       | request c n w =>
         simp only [Bus.connectedAfter, Bus.nextIdAfter] at hconn hnext
+        obtain ⟨m, effs, hm, heffs, rfl⟩ := hg
         have hc : s.connected c = true := Bus.requestName_connected (show Bus.requestName s c n w = _ from h1)
-        have hst : BusRoute.final cfg r (genStep enc fgn s s' (.op (.request c n w))) = _ :=
-          J.busCall_state cfg hc _
+        obtain ⟨_, _, x, hget, hxn, hxl⟩ := J.conn_of hc
+        have hst : BusRoute.final cfg r [.msg (phi c) m (.exec effs)] = (applyEffects cfg r effs).1 :=
+          step_nameCall cfg r (phi c) x _ m effs hget hxl hxn hm
         rw [hst] at hR' ⊢
-        obtain ⟨f1, _, f3, _, f5⟩ := BusRoute.applyEffects_frame cfg r
-          (ownerEffects enc phi (Bus.changedNames s (.request c n w)) s s')
-        exact J.of_frame hN' hR' hconn hnext f1 f5 f3 (agree_step he cfg J.invN h1 r J.owners)
+        exact J.of_keeps hN' hR' hconn hnext
+          (BusRoute.KeepsNames.of_frame (BusRoute.applyEffects_frame cfg r effs))
+          (agree_applyEffects he cfg (fun k hk => Bus.step_lookup_frame J.invN h1 k hk) r J.owners effs heffs)
       | release c n =>
         simp only [Bus.connectedAfter, Bus.nextIdAfter] at hconn hnext
+        obtain ⟨m, effs, hm, heffs, rfl⟩ := hg
         have hc : s.connected c = true := Bus.releaseName_connected (show Bus.releaseName s c n = _ from h1)
-        have hst : BusRoute.final cfg r (genStep enc fgn s s' (.op (.release c n))) = _ :=
-          J.busCall_state cfg hc _
+        obtain ⟨_, _, x, hget, hxn, hxl⟩ := J.conn_of hc
+        have hst : BusRoute.final cfg r [.msg (phi c) m (.exec effs)] = (applyEffects cfg r effs).1 :=
+          step_nameCall cfg r (phi c) x _ m effs hget hxl hxn hm
         rw [hst] at hR' ⊢
-        obtain ⟨f1, _, f3, _, f5⟩ := BusRoute.applyEffects_frame cfg r
-          (ownerEffects enc phi (Bus.changedNames s (.release c n)) s s')
-        exact J.of_frame hN' hR' hconn hnext f1 f5 f3 (agree_step he cfg J.invN h1 r J.owners)
+        exact J.of_keeps hN' hR' hconn hnext
+          (BusRoute.KeepsNames.of_frame (BusRoute.applyEffects_frame cfg r effs))
+          (agree_applyEffects he cfg (fun k hk => Bus.step_lookup_frame J.invN h1 k hk) r J.owners effs heffs)
       | disconnect c =>
         simp only [Bus.connectedAfter, Bus.nextIdAfter] at hconn hnext
+        obtain ⟨effs, heffs, rfl⟩ := hg
         have hc : s.connected c = true := Bus.disconnect_connected (show Bus.disconnect s c = _ from h1)
-        obtain ⟨hp, hl, hget, hlive⟩ := J.conn_of hc
-        have hok := BusRoute.disconnectOk_of_inv J.invR (phi c) _ hget hlive
-        have hst : BusRoute.final cfg r (genStep enc fgn s s' (.op (.disconnect c))) = _ :=
-          step_disconnect_state cfg r (phi c) _ _ hget hlive hok
-        rw [hst] at hR' ⊢
-        obtain ⟨d1, d2, _, d4, d5⟩ := BusRoute.dropClient_fields
-          (applyEffects cfg { r with conns := r.conns.set (phi c) { connOf s (phi c) with isConnected := false },
-                                     rules := r.rules.filter (fun x => !((connOf s (phi c)).matchRules.contains x.id)) }
-            (ownerEffects enc phi (Bus.changedNames s (.disconnect c)) s s')).1
-          (connOf s (phi c)).uniqueName
-        obtain ⟨f1, _, f3, _, f5⟩ := BusRoute.applyEffects_frame cfg
-          ({ r with conns := r.conns.set (phi c) { connOf s (phi c) with isConnected := false },
-                    rules := r.rules.filter (fun x => !((connOf s (phi c)).matchRules.contains x.id)) } : BusRoute.State ρ)
-          (ownerEffects enc phi (Bus.changedNames s (.disconnect c)) s s')
-        refine ⟨hN', hR', ?_, ?_, ?_, ?_, ?_, ?_⟩
+        obtain ⟨hp, hl, x, hget, hxn, hxl⟩ := J.conn_of hc
+        have hok := BusRoute.disconnectOk_of_inv J.invR (phi c) x hget hxl
+        obtain ⟨f1, _, _, _, f5, _⟩ := BusRoute.stepDisconnect_fields cfg r (phi c) effs x hget hxl hok
+        have hown : (BusRoute.stepDisconnect cfg r (phi c) effs).1.owners =
+            (applyEffects cfg
+              ({ r with conns := r.conns.set (phi c) { x with isConnected := false },
+                        rules := r.rules.filter (fun y => !(x.matchRules.contains y.id)) } : BusRoute.State ρ)
+              effs).1.owners := by
+          simp only [BusRoute.stepDisconnect, hget, hxl, hok, Bool.true_eq_false, if_false]
+          exact (BusRoute.dropClient_fields _ _).2.2.2.2
+        show Joint enc s' (BusRoute.stepDisconnect cfg r (phi c) effs).1
+        have hR'' : BusRoute.Inv (BusRoute.stepDisconnect cfg r (phi c) effs).1 := hR'
+        refine ⟨hN', hR'', ?_, ?_, ?_, ?_, ?_, ?_⟩
         · intro d hd
           rw [hconn d] at hd
           by_cases hdc : d = c
           · simp [hdc] at hd
           · simp only [hdc, if_false] at hd; exact J.pos d hd
-        · rw [d4, f5, hnext]; exact J.next
-        · rw [d1, f1, hnext]; simp only [List.length_set]; exact J.len
+        · rw [f5, hnext]; exact J.next
+        · rw [f1, hnext]; simp only [List.length_set]; exact J.len
         · intro i hi
-          rw [d1, f1] at hi ⊢
+          rw [f1] at hi
           simp only [List.length_set] at hi
-          rw [List.getElem?_set]
-          by_cases hi2 : phi c = i
-          · subst hi2
-            simp only [if_true, hl, connOf, hp, hconn c]
-          · simp only [hi2, if_false]
-            rw [J.conn i hi]
-            have : i + 1 ≠ c := by
+          rw [BusRoute.nameOf_set' r (phi c) x _ hget _ f1 i]
+          by_cases hi2 : i = phi c
+          · rw [if_pos hi2, hi2, hp]; exact hxn
+          · rw [if_neg hi2]; exact J.name i hi
+        · intro i hi
+          rw [f1] at hi
+          simp only [List.length_set] at hi
+          rw [BusRoute.connected_set r (phi c) x _ hget _ f1 i, hconn (i + 1)]
+          by_cases hi2 : i = phi c
+          · rw [if_pos hi2, hi2, hp]; simp
+          · have : i + 1 ≠ c := by
               intro e; apply hi2; rw [← e]; rfl
-            simp only [connOf, hconn (i + 1), this, if_false]
-        · rw [d2, f3]; simp [J.rules]
-        · rw [d5]
-          exact agree_applyEffects he cfg (fun n hn => Bus.step_lookup_frame J.invN h1 n hn)
-            ({ r with conns := r.conns.set (phi c) { connOf s (phi c) with isConnected := false },
-                      rules := r.rules.filter (fun x => !((connOf s (phi c)).matchRules.contains x.id)) } : BusRoute.State ρ)
-            J.owners _ rfl
+            rw [if_neg hi2, if_neg this]; exact J.live i hi
+        · rw [hown]
+          exact agree_applyEffects he cfg (fun k hk => Bus.step_lookup_frame J.invN h1 k hk)
+            ({ r with conns := r.conns.set (phi c) { x with isConnected := false },
+                      rules := r.rules.filter (fun y => !(x.matchRules.contains y.id)) } : BusRoute.State ρ)
+            J.owners effs heffs
       | connect =>
         simp only [Bus.connectedAfter, Bus.nextIdAfter] at hconn hnext
+        obtain ⟨m, op, hm, rfl⟩ := hg
         have hlen : s.nextId - 1 = r.conns.length := by
           have := J.len; omega
-        have hst : BusRoute.final cfg r (genStep enc fgn s s' (.op .connect)) =
+        have hst : BusRoute.final cfg r [.connect, .msg (s.nextId - 1) m op] =
             { r with conns := r.conns ++ [{ uniqueName := some (uniqueNameOf r.nextId), calledHello := true,
                                             isConnected := true, matchRules := [] }],
                      nextId := r.nextId + 1,
                      clients := dset (uniqueNameOf r.nextId) r.conns.length r.clients } := by
-          simp only [genStep, hlen]
-          exact final_connect_hello cfg r
+          rw [hlen]
+          exact final_connect_hello cfg r m op hm
         rw [hst] at hR' ⊢
-        refine ⟨hN', hR', ?_, ?_, ?_, ?_, J.rules, ?_⟩
+        have h3 : r.conns.length + 1 = s.nextId := J.len
+        refine ⟨hN', hR', ?_, ?_, ?_, ?_, ?_, ?_⟩
         · intro d hd
           rw [hconn d] at hd
           by_cases hdn : d = s.nextId
@@ -340,52 +380,65 @@ theorem joint_stepL {cfg : Cfg ρ} (hr : cfg.Repaired) (he : NameEnc enc)
           rw [hnext, List.length_append, ← J.len]; rfl
         · intro i hi
           have hi' : i < r.conns.length + 1 := by simpa using hi
-          show (r.conns ++ [_])[i]? = _
           by_cases hlt : i < r.conns.length
-          · rw [List.getElem?_append_left hlt, J.conn i hlt]
-            have : i + 1 ≠ s.nextId := by have := J.len; omega
-            simp only [connOf, hconn (i + 1), this, if_false]
+          · have := J.name i hlt
+            simp only [BusRoute.nameOf] at this ⊢
+            rw [List.getElem?_append_left hlt]; exact this
           · have hi3 : i = r.conns.length := by omega
             subst hi3
-            rw [List.getElem?_append_right (Nat.le_refl _)]
-            have h3 : r.conns.length + 1 = s.nextId := J.len
-            have hc1 : s'.connected s.nextId = true := by rw [hconn]; simp
-            simp only [Nat.sub_self, List.getElem?_cons_zero, connOf, h3, hc1, J.next]
+            simp only [BusRoute.nameOf, List.getElem?_append_right (Nat.le_refl _), Nat.sub_self,
+              List.getElem?_cons_zero, Option.bind_some, J.next, h3]
+        · intro i hi
+          have hi' : i < r.conns.length + 1 := by simpa using hi
+          rw [hconn (i + 1)]
+          by_cases hlt : i < r.conns.length
+          · have hne : i + 1 ≠ s.nextId := by omega
+            have := J.live i hlt
+            simp only [BusRoute.connected] at this ⊢
+            rw [List.getElem?_append_left hlt, if_neg hne]; exact this
+          · have hi3 : i = r.conns.length := by omega
+            subst hi3
+            simp only [BusRoute.connected, List.getElem?_append_right (Nat.le_refl _), Nat.sub_self,
+              List.getElem?_cons_zero, h3, if_true]
         · intro n
           show dget (enc n) r.owners = _
           rw [Bus.step_lookup_frame J.invN h1 n (by simp [Bus.changedNames])]
           exact J.owners n
 
-/-- Whole histories. -/
-theorem joint_run {cfg : Cfg ρ} (hr : cfg.Repaired) (he : NameEnc enc)
-    (hne : ∀ a, enc a ≠ [] ∧ enc a ≠ busName) (fgn : BusRoute.Name) (hf : fgn.head? = some ':')
-    {hs : List Bus.HStep} : ∀ {s : Bus.State} {r : BusRoute.State ρ} {s' : Bus.State} {outs : List Bus.HOut},
-    Joint enc s r → Bus.runL s hs = .ok (s', outs) →
-    Joint enc s' (BusRoute.final cfg r (gen enc fgn s hs)) := by
-  induction hs with
-  | nil =>
-    intro s r s' outs J h
+/-- Linked histories keep the joint invariant: if C13's model runs `hs` from `s` to `s'`, C14's model run
+on the linked `es` ends in a state joint with `s'`. -/
+theorem joint_linked {cfg : Cfg ρ} (hr : cfg.Repaired) (he : NameEnc enc) {hs : List Bus.HStep}
+    {es : List (Event ρ)} {s0 : Bus.State} (hl : Linked enc s0 hs es) :
+    ∀ {r : BusRoute.State ρ} {s' : Bus.State} {outs : List Bus.HOut},
+    Joint enc s0 r → Bus.runL s0 hs = .ok (s', outs) → Joint enc s' (BusRoute.final cfg r es) := by
+  induction hl with
+  | nil s =>
+    intro r s' outs J h
     simp only [Bus.runL] at h
     cases h
     exact J
-  | cons x xs ih =>
-    intro s r s' outs J h
-    simp only [Bus.runL] at h
-    cases h1 : Bus.stepL s x with
-    | error e => simp [h1] at h
-    | ok r1 =>
-      obtain ⟨s1, o1⟩ := r1
-      simp only [h1] at h
-      cases h2 : Bus.runL s1 xs with
-      | error e => simp [h2] at h
-      | ok r2 =>
-        obtain ⟨s2, os2⟩ := r2
-        simp only [h2] at h
-        cases h
-        have J1 := joint_stepL hr he hne fgn hf J h1
-        have := ih J1 h2
-        simp only [gen, h1, BusRoute.final_append]
-        exact this
+  | neutral i m op hop _ ih =>
+    intro r s' outs J h
+    exact ih (J.neutral hr i m op hop) h
+  | @step s1 s2 hh o hs' evs es' h1 hg _ ih =>
+    intro r s' outs J h
+    simp only [Bus.runL, h1] at h
+    cases h2 : Bus.runL s2 hs' with
+    | error e => simp [h2] at h
+    | ok p =>
+      obtain ⟨s3, os3⟩ := p
+      simp only [h2] at h
+      cases h
+      rw [BusRoute.final_append]
+      exact ih (joint_stepL hr he J h1 hg) h2
+
+/-! ### deliveries in a joint state -/
+
+/-- The string of a destination; `fgn` is a colon name that was never handed out. -/
+def destStr (enc : Bus.Name → BusRoute.Name) (fgn : BusRoute.Name) : Bus.Dest → BusRoute.Name
+  | .unique k => uniqueNameOf k
+  | .foreign => fgn
+  | .wellKnown n => enc n
 
 /-- In a joint state C14's lookup for the string of ANY destination is C13's `routerLookup`
 (well-known names through `owners`, unique names through C14's own client table). -/
@@ -403,7 +456,7 @@ theorem Joint.resolve (J : Joint enc s r) (he : NameEnc enc) (fgn : BusRoute.Nam
     | some j =>
       obtain ⟨hn, _⟩ := (J.invR.clients_iff fgn j).mp hd
       have hj := BusRoute.nameOf_some_lt r j fgn hn
-      rw [BusRoute.nameOf_of_getElem r j _ (J.conn j hj)] at hn
+      rw [J.name j hj] at hn
       exact absurd (Option.some.inj hn).symm (hf2 (j + 1))
   | unique k =>
     show BusRoute.resolve r (uniqueNameOf k) = _
@@ -411,81 +464,116 @@ theorem Joint.resolve (J : Joint enc s r) (he : NameEnc enc) (fgn : BusRoute.Nam
     rw [if_pos (BusRoute.uniqueNameOf_head k), Bus.routerLookup_unique]
     by_cases hk : s.connected k = true
     · rw [if_pos hk]
-      obtain ⟨hp, _, hget, hlive⟩ := J.conn_of hk
+      obtain ⟨hp, hl, x, hget, hxn, hxl⟩ := J.conn_of hk
       apply (J.invR.clients_iff (uniqueNameOf k) (phi k)).mpr
       refine ⟨?_, ?_⟩
-      · rw [BusRoute.nameOf_of_getElem r _ _ hget]
-        show some (uniqueNameOf (phi k + 1)) = _
-        rw [hp]
-      · rw [BusRoute.connected_of_getElem r _ _ hget]; exact hlive
+      · rw [BusRoute.nameOf_of_getElem r _ _ hget]; exact hxn
+      · rw [BusRoute.connected_of_getElem r _ _ hget]; exact hxl
     · rw [if_neg hk]
       cases hd : dget (uniqueNameOf k) r.clients with
       | none => rfl
       | some j =>
         obtain ⟨hn, hcn⟩ := (J.invR.clients_iff (uniqueNameOf k) j).mp hd
         have hj := BusRoute.nameOf_some_lt r j _ hn
-        rw [BusRoute.nameOf_of_getElem r j _ (J.conn j hj)] at hn
-        rw [BusRoute.connected_of_getElem r j _ (J.conn j hj)] at hcn
+        rw [J.name j hj] at hn
+        rw [J.live j hj] at hcn
         have hjk : j + 1 = k := BusRoute.uniqueNameOf_injective (Option.some.inj hn)
         have : s.connected k = true := by rw [← hjk]; exact hcn
         exact absurd this hk
 
-/-- In a joint state the event generated for `send c d` by a connected `c` changes nothing and is
-delivered to (C14's index of) the connection C13's `routerLookup` finds - and to nobody else, and to
-nobody when it finds none. -/
+/-- In a joint state ANY message `m` addressed to (the string of) a destination `d`, sent by a connected
+`c`, under ANY classification `op`: nothing changes, and it is delivered to (C14's index of) the connection
+C13's `routerLookup` finds - to nobody else, whatever match rules anybody holds - or to nobody. -/
 theorem Joint.send (J : Joint enc s r) {cfg : Cfg ρ} (hr : cfg.Repaired) (he : NameEnc enc)
-    (hne : ∀ a, enc a ≠ [] ∧ enc a ≠ busName) (fgn : BusRoute.Name) (hf : fgn.head? = some ':')
-    (hf2 : ∀ k, fgn ≠ uniqueNameOf k) {c : Bus.Conn} (hc : s.connected c = true) (d : Bus.Dest) :
-    (BusRoute.step cfg r (.msg (phi c) (addressedMsg (destStr enc fgn d)) (.exec []))).1 = r ∧
-    (BusRoute.step cfg r (.msg (phi c) (addressedMsg (destStr enc fgn d)) (.exec []))).2.deliveries =
+    (fgn : BusRoute.Name) (hf : fgn.head? = some ':') (hf2 : ∀ k, fgn ≠ uniqueNameOf k)
+    {c : Bus.Conn} (hc : s.connected c = true) (d : Bus.Dest) (m : Msg) (op : BusOp ρ)
+    (hm : BusRoute.Addressed m (destStr enc fgn d)) :
+    (BusRoute.step cfg r (.msg (phi c) m op)).1 = r ∧
+    (BusRoute.step cfg r (.msg (phi c) m op)).2.deliveries =
       (match Bus.routerLookup s d with
-       | some k => [⟨phi k, .fwd (phi c) (BusRoute.remarshal (addressedMsg (destStr enc fgn d)) (uniqueNameOf c))⟩]
+       | some k => [⟨phi k, .fwd (phi c) (BusRoute.remarshal m (uniqueNameOf c))⟩]
        | none => []) := by
-  obtain ⟨hp, _, hget, hlive⟩ := J.conn_of hc
-  obtain ⟨hd, hb⟩ := destStr_addressed hne fgn hf d
-  have hname : (connOf s (phi c)).uniqueName = some (uniqueNameOf c) := by
-    show some (uniqueNameOf (phi c + 1)) = _
-    rw [hp]
-  obtain ⟨a, b⟩ := step_send hr r (phi c) _ (uniqueNameOf c) _ hget hlive hname hd hb
+  obtain ⟨hp, _, x, hget, hxn, hxl⟩ := J.conn_of hc
+  rw [BusRoute.step_msg_live cfg r (phi c) m op x hget hxl, ensureNamed_named r (phi c) x _ hxn]
+  obtain ⟨a, b, _⟩ := BusRoute.stepNamed_unicast hr r (phi c) (uniqueNameOf c) none x.calledHello m op _ hm
   refine ⟨a, ?_⟩
   rw [b]
   unfold BusRoute.busSend
   rw [J.resolve he fgn hf hf2 d]
   cases Bus.routerLookup s d <;> rfl
 
-theorem gen_append (fgn : BusRoute.Name) {h1 h2 : List Bus.HStep} : ∀ {s s1 : Bus.State} {o1 : List Bus.HOut},
-    Bus.runL s h1 = .ok (s1, o1) →
-    gen (ρ := ρ) enc fgn s (h1 ++ h2) = gen enc fgn s h1 ++ gen enc fgn s1 h2 := by
-  induction h1 with
-  | nil =>
-    intro s s1 o1 h
-    simp only [Bus.runL] at h
-    cases h
-    rfl
-  | cons x xs ih =>
-    intro s s1 o1 h
-    simp only [Bus.runL] at h
-    cases hx : Bus.stepL s x with
-    | error e => simp [hx] at h
-    | ok p =>
-      obtain ⟨sx, ox⟩ := p
-      simp only [hx] at h
-      cases h2 : Bus.runL sx xs with
-      | error e => simp [h2] at h
-      | ok p2 =>
-        obtain ⟨s2, os2⟩ := p2
-        simp only [h2] at h
-        cases h
-        simp only [List.cons_append, gen, hx, ih h2, List.append_assoc]
+/-- A message addressed to the bus itself is forwarded to nobody (C14's own theorem, in a joint state). -/
+theorem Joint.sendBus (J : Joint enc s r) {cfg : Cfg ρ} (hr : cfg.Repaired) {c : Bus.Conn}
+    (hc : s.connected c = true) (m : Msg) (op : BusOp ρ) (hm : m.dest = some busName) :
+    ∀ dl ∈ (BusRoute.step cfg r (.msg (phi c) m op)).2.deliveries, dl.what.isFwd = false := by
+  obtain ⟨_, _, x, hget, _, hxl⟩ := J.conn_of hc
+  have hlive : BusRoute.Live r (phi c) := by
+    show BusRoute.connected r (phi c) = true
+    rw [BusRoute.connected_of_getElem r _ _ hget]; exact hxl
+  exact (BusRoute.bus_calls_from hr J.invR (phi c) m op hm hlive).1
 
 /-- In a joint state the owner of a well-known name according to C14 is a live connection. -/
 theorem Joint.owner_live (J : Joint enc s r) (he : NameEnc enc) (hs : Bus.Reachable s) (j : ConnId) (n : Bus.Name)
     (hj : BusRoute.Owns r j (enc n)) : BusRoute.Live r j := by
   apply names_owner_live he hs r J.owners _ j n hj
   intro k hk
-  obtain ⟨_, _, hget, hlive⟩ := J.conn_of hk
+  obtain ⟨_, _, x, hget, _, hxl⟩ := J.conn_of hk
   show BusRoute.connected r (phi k) = true
-  rw [BusRoute.connected_of_getElem r _ _ hget]; exact hlive
+  rw [BusRoute.connected_of_getElem r _ _ hget]; exact hxl
+
+/-! ### `Linked` is inhabited for every history: the canonical events -/
+
+/-- The least history of C14's model for a history of C13's model: Hello per connect, one bus call
+carrying exactly C13's effects per name operation. -/
+def gen (enc : Bus.Name → BusRoute.Name) (s : Bus.State) : List Bus.HStep → List (Event ρ)
+  | [] => []
+  | h :: hs =>
+    match Bus.stepL s h with
+    | .error _ => []
+    | .ok (s', _) =>
+      (match h with
+       | .op .connect => [.connect, .msg (s.nextId - 1) (busCallMsg BusRoute.helloMember) (.exec [])]
+       | .op (.disconnect c) =>
+         [.disconnect (phi c) (ownerEffects enc phi (Bus.changedNames s (.disconnect c)) s s')]
+       | .op (.request c n w) =>
+         [.msg (phi c) (busCallMsg nameMember)
+            (.exec (ownerEffects enc phi (Bus.changedNames s (.request c n w)) s s'))]
+       | .op (.release c n) =>
+         [.msg (phi c) (busCallMsg nameMember)
+            (.exec (ownerEffects enc phi (Bus.changedNames s (.release c n)) s s'))]
+       | _ => []) ++ gen enc s' hs
+
+theorem linked_gen {hs : List Bus.HStep} : ∀ {s s' : Bus.State} {outs : List Bus.HOut},
+    Bus.runL s hs = .ok (s', outs) → Linked (ρ := ρ) enc s hs (gen enc s hs) := by
+  induction hs with
+  | nil => intro s s' outs _; exact Linked.nil s
+  | cons x xs ih =>
+    intro s s' outs h
+    simp only [Bus.runL] at h
+    cases h1 : Bus.stepL s x with
+    | error e => simp [h1] at h
+    | ok p =>
+      obtain ⟨s1, o1⟩ := p
+      simp only [h1] at h
+      cases h2 : Bus.runL s1 xs with
+      | error e => simp [h2] at h
+      | ok p2 =>
+        obtain ⟨s2, os2⟩ := p2
+        simp only [gen, h1]
+        refine Linked.step h1 ?_ (ih h2)
+        cases x with
+        | send c d => rfl
+        | sendBus c => rfl
+        | ask c d => rfl
+        | op op =>
+          cases op with
+          | connect => exact ⟨_, _, busCallMsg_hello, rfl⟩
+          | disconnect c => exact ⟨_, rfl, rfl⟩
+          | request c n w => exact ⟨_, _, busCallMsg_nameCall, rfl, rfl⟩
+          | release c n => exact ⟨_, _, busCallMsg_nameCall, rfl, rfl⟩
+          | getOwner c n => rfl
+          | listQueued c n => rfl
+          | other c => rfl
 
 /-! ### a concrete instance -/
 
@@ -495,6 +583,12 @@ def exForeign : BusRoute.Name := [':', 'x']
 theorem exForeign_ok : exForeign.head? = some ':' ∧ ∀ k, exForeign ≠ uniqueNameOf k := by
   refine ⟨rfl, fun k h => ?_⟩
   simp [exForeign, uniqueNameOf] at h
+
+/-- A unicast SIGNAL with a forged sender field, serial 7, addressed to the first well-known name. -/
+def exMsg : Msg :=
+  { (default : Msg) with mtype := .sig, serial := 7, sender := some exForeign, dest := some (exEnc 0) }
+
+theorem busName_head : busName.head? = some 'o' := by decide
 
 theorem exEnc_addressed : ∀ a, exEnc a ≠ [] ∧ exEnc a ≠ busName := by
   intro a
